@@ -71,13 +71,20 @@ impl<T> vstd::std_specs::core::IndexSpecImpl<TermIndex> for TermVec<T> {
 //@  fn index ret=r
 //@  |             ensures *r == self.0@[index.0 as int],
 //@end
+//@impl TRM /^impl < T > TermVec < T >/
+//@  fn len ret=r
+//@  |                 ensures r == self.0@.len(),
+//@end
 //@allow external_body TermVec::index_mut is the one-line wrapper `self.0.index_mut(index.0)`; Vec's IndexMut::index_mut called as a method has no vstd contract, so the wrapper is given the contract of `&mut self.0[index.0]`
 //@impl TRM /^impl < T > IndexMut < TermIndex > for TermVec < T >/
 //@  fn index_mut ret=r xbody
 //@  |             ensures *r == old(self).0@[index.0 as int], final(self).0@ == old(self).0@.update(index.0 as int, *final(r)),
 //@end
 //@macro SYM IDX create_index invoked_in=IDX index=SymbolIndex collection=SymbolVec
-//@struct SYM SymbolIndex derive=Copy,Clone
+//@struct SYM SymbolIndex derive=Copy,Clone,PartialEq
+//@end
+//@macro NTI IDX create_index invoked_in=IDX index=NonTermIndex collection=NonTermVec
+//@struct NTI NonTermIndex derive=Copy,Clone
 //@end
 
 // ---- the real types the range reads, projected to the fields it mentions (R-PROJ) --------------------------------------
@@ -87,7 +94,7 @@ impl<T> vstd::std_specs::core::IndexSpecImpl<TermIndex> for TermVec<T> {
 //@const GRM DEFAULT_PRIORITY
 //@struct GRM ResolvingAssignment fields=-
 //@end
-//@struct GRM Production fields=prio,assoc,nops,nopse,rhs
+//@struct GRM Production fields=prio,assoc,nops,nopse,rhs,nonterminal
 //@end
 //@struct GRM Terminal fields=idx,assoc
 //@end
@@ -317,6 +324,9 @@ proof fn lemma_resolve_keeps_cell_wf(g: &Grammar, s: &Settings, mp: Map<TermInde
 //@impl GRM /^impl Grammar/ has=symbol_to_term
 //@  fn symbol_to_term_index ret=r
 //@  |         ensures r.0 == index.0,
+//@  fn nonterm_to_symbol_index ret=r
+//@  |         requires index.0 + self.terminals.0@.len() <= usize::MAX,
+//@  |         ensures r.0 == index.0 + self.terminals.0@.len(), // [C01]
 //@  fn symbol_to_term ret=r
 //@  |         requires index.0 < self.terminals.0@.len(),
 //@  |         ensures *r == self.terminals.0@[index.0 as int],
@@ -338,21 +348,40 @@ spec fn reduce_pre(g: &Grammar, st: &LRState, item: &LRItem) -> bool {
     &&& forall|t: int| 0 <= t < g.terminals.0@.len() ==> cell_pre(g, st.max_prior_for_term@, &g.terminals.0@[t], #[trigger] st.actions.0@[t]@)
 }
 
+/// the production is one of the augmented ones (S' -> S, or the layout grammar's): its left-hand side is in the list built in front of the loops
+spec fn is_aug(g: &Grammar, aug: Seq<SymbolIndex>, prod: &Production) -> bool {
+    aug.contains(SymbolIndex((prod.nonterminal.0 + g.terminals.0@.len()) as usize))
+}
+
+//@allow assume_specification <[T]>::contains returns whether some element equals the argument (std dependency; ASSUMED for the element type used here, SymbolIndex, whose derived == is equality of the wrapped usize)
+pub assume_specification<T: PartialEq> [<[T]>::contains] (s: &[T], x: &T) -> (r: bool)
+    ensures r == s@.contains(*x);
+
 //@lift RDB reduce_block
 //@allow external_body xexpr_follow_iter: the expression `item.follow.borrow().iter()` (RefCell::borrow + Deref of std::cell::Ref + BTreeSet::iter; Verus accepts no specification for Ref's Deref impl) is replaced by a call of an external function (body dropped: a function cannot return an iterator borrowing from a temporary Ref); ASSUMED: it yields exactly the follow set of the item, each symbol once
 //@impl RDB /^impl < 'g , 's > LRTable < 'g , 's >/
-//@  fn reduce_block allclosures attr=verifier::loop_isolation(false)
+//@  fn reduce_block ret=r allclosures attr=verifier::loop_isolation(false)
 //@  |         requires
 //@  |             reduce_pre(self.grammar, old(state), item),
+//@  |             item.prod.0 < self.grammar.productions.0@.len(),
+//@  |             self.grammar.productions.0@[item.prod.0 as int].nonterminal.0 + self.grammar.terminals.0@.len() <= usize::MAX,
+//@  |             self.grammar.terminals.0@.len() > 0, // terminal 0 is STOP
 //@  |         ensures
 //@  |             final(state).actions.0@.len() == old(state).actions.0@.len(),
 //@  |             final(state).max_prior_for_term == old(state).max_prior_for_term,
+//@  |             !r, // [C01] the item loop is never left early: every reducing item of the state is handled
+//@  |             // [C01] ACCEPT: a completed augmented item -- and nothing else -- puts ACCEPT in the cell of STOP; an augmented item
+//@  |             // touches no other cell (in particular its right-nulled variants place nothing)
+//@  |             is_aug(self.grammar, aug_symbols@, &self.grammar.productions.0@[item.prod.0 as int]) ==>
+//@  |                 forall|t: int| 0 <= t < old(state).actions.0@.len() ==> (#[trigger] final(state).actions.0@[t])@ ==
+//@  |                     (if t == 0 && item.position == item.prod_len { old(state).actions.0@[t]@.push(Action::Accept) } else { old(state).actions.0@[t]@ }), // [C01]
 //@  |             // [C01] REDUCE entries sit exactly on the item's lookaheads: the cell of every terminal in the follow set is the old
 //@  |             // cell with Reduce(item.prod, item.position) registered (directly if it was empty, through conflict resolution
 //@  |             // otherwise); every other cell is untouched
-//@  |             forall|t: int| 0 <= t < old(state).actions.0@.len() ==> (#[trigger] final(state).actions.0@[t])@ ==
+//@  |             !is_aug(self.grammar, aug_symbols@, &self.grammar.productions.0@[item.prod.0 as int]) ==>
+//@  |               forall|t: int| 0 <= t < old(state).actions.0@.len() ==> (#[trigger] final(state).actions.0@[t])@ ==
 //@  |                 (if follow_of(item).contains(SymbolIndex(t as usize)) {
-//@  |                     cell_after(self.grammar, self.settings, old(state).max_prior_for_term@, item, prod, &self.grammar.terminals.0@[t], old(state).actions.0@[t]@,
+//@  |                     cell_after(self.grammar, self.settings, old(state).max_prior_for_term@, item, &self.grammar.productions.0@[item.prod.0 as int], &self.grammar.terminals.0@[t], old(state).actions.0@[t]@,
 //@  |                         Action::Reduce(item.prod, item.position))
 //@  |                 } else { old(state).actions.0@[t]@ }), // [C01, C05]
 //@  before 1 "for follow_symbol in"
